@@ -19,6 +19,36 @@ type chanOps struct {
 // chanIdent names a channel value: "F:<field node>" or "cell:<alloc>" ...
 func (c *Ctx) chanIdent(v ssa.Value) (fieldVar *types.Var, cell *ssa.Alloc) {
 	v = c.resolve(v)
+	// a channel handed to a helper as a parameter: identify it at the call sites
+	if p, ok := v.(*ssa.Parameter); ok {
+		idx := paramIndex(p)
+		var f0 *types.Var
+		var c0 *ssa.Alloc
+		n := 0
+		for _, ci := range c.Callers[p.Parent()] {
+			if idx < len(ci.Common().Args) {
+				f, cl := c.chanIdent(ci.Common().Args[idx])
+				if n > 0 && (f != f0 || cl != c0) {
+					return nil, nil
+				}
+				f0, c0 = f, cl
+				n++
+			}
+		}
+		return f0, c0
+	}
+	if fv, ok := v.(*ssa.UnOp); ok && fv.Op == token.MUL {
+		if free, ok := fv.X.(*ssa.FreeVar); ok {
+			// captured parameter cell
+			if cell := c.cellOf(free); cell != nil {
+				if st := c.cellStores(cell); len(st) == 1 {
+					if _, isParam := st[0].Val.(*ssa.Parameter); isParam {
+						return c.chanIdent(st[0].Val)
+					}
+				}
+			}
+		}
+	}
 	u, ok := v.(*ssa.UnOp)
 	if !ok || u.Op != token.MUL {
 		if mk, ok := v.(*ssa.MakeChan); ok {
